@@ -11,7 +11,7 @@
 From Coq Require Import Lia.
 From Verif Require Import Base.Prelude Base.Str Base.Float Base.GoVal
   Schema.Regex Schema.Units Schema.Syntax Schema.Ops Schema.Cbor ATP.Msg ATP.System Call.Step ATP.SystemV Proofs.CborNorm.
-From Verif Require Proofs.ATPClientInv Proofs.C05System Proofs.C05Close.
+From Verif Require Proofs.ATPClientInv Proofs.C05System Proofs.C05Close Proofs.C05Param.
 Local Open Scope string_scope.
 Local Open Scope list_scope.
 Local Open Scope nat_scope.
@@ -142,3 +142,27 @@ Proof.
 Qed.
 
 End Transparent.
+
+(* ---- why the payloads of the composition may be read as names (Proofs/C05Param.v): the client model over the real
+   values, started on the session as the harness states it, has exactly the images of the executions of the client model
+   over tokens - same labels, every payload t replaced by the value v_input t it names ---- *)
+Module PM := Verif.Proofs.C05Param.
+
+Lemma tok_from_image : forall l k (den : Z -> gval),
+  (forall i x, nth_error l i = Some x -> den (Z.of_nat (k + i)) = C.cs_input x) ->
+  map (PM.map_callspec Z gval den) (tok_from k l) = l.
+Proof.
+  induction l as [|a t IH]; intros k den H; cbn [tok_from map]; [reflexivity|]. f_equal.
+  - unfold PM.map_callspec. cbn. pose proof (H 0 a eq_refl) as E. rewrite Nat.add_0_r in E. rewrite E. destruct a; reflexivity.
+  - apply IH. intros i x Hx. replace (S k + i) with (k + S i) by lia. apply (H (S i) x Hx).
+Qed.
+
+Theorem client_over_values : forall (vcalls : list (C.callspec gval)) close ls,
+  C.run (C.init (C.mkSession vcalls close [] None None)) ls =
+  option_map (PM.map_state Z gval (v_input vcalls)) (C.run (C.init (sys_session (tok_calls vcalls) close)) ls).
+Proof.
+  intros vcalls close ls. rewrite <- PM.run_map. f_equal. unfold sys_session.
+  rewrite <- (PM.init_map Z gval (v_input vcalls)). unfold tok_calls.
+  rewrite (tok_from_image vcalls 0 (v_input vcalls)); [reflexivity|].
+  intros i x Hx. cbn [Nat.add]. apply v_input_nth. exact Hx.
+Qed.
